@@ -36,7 +36,7 @@ PROPS = {
     "C08": {"suites": ["fat", "ns", "volume"],
             "rule": "every device access of every history checked against the volume bounds (guard bands, device length); volume: every distinct access "
                     "classified into the model's admissible access kinds"},
-    "C09": {"suites": ["fail", "fat"],
+    "C09": {"suites": ["fail", "fat", "volume"],
             "rule": "fail: for each of 11 target operations x free-cluster budgets 0..k (volume filled so that the k-th allocation of the operation fails) "
                     "and root directories filled to capacity minus 0..k slots: the operation, then follow-ups (listing, reads, removals to make room, retry); "
                     "limit programs (256-unit names, timestamps outside 1980..2107, wrong resource types)"},
